@@ -182,7 +182,9 @@ def _run_shard(binary, reqs, timeout_s):
         except Exception:
             break
     nxt = len(resps) if len(resps) < len(reqs) else None
-    return resps, nxt, err[-3000:]
+    m = re.search(r"^(fatal error: [^\n]*|panic: [^\n]*)", err, re.M)       # the first line of a Go crash report may be far above the tail
+    head = (m.group(1) + "\n") if m and m.group(1) not in err[-3000:] else ""
+    return resps, nxt, head + err[-3000:]
 
 
 def run_cases(reqs, binary=None, nproc=None, shard_timeout_s=1800, label="", isolate=False):
